@@ -1179,6 +1179,17 @@ def _isnum(v):
     return isinstance(v, (int, float)) and not isinstance(v, bool)
 
 
+def _year(v):
+    """heading of a time column: a number or a date (excel.py:1207-1215) -> float year, else None"""
+    import datetime
+
+    if _isnum(v):
+        return float(v)
+    if isinstance(v, (datetime.datetime, datetime.date)):
+        return v.year + (v.timetuple().tm_yday - 1) / 366.0
+    return None
+
+
 class TdveTable:
     """one time-dependent-values table (databook quantity page or progbook spending sheet)"""
 
@@ -1194,8 +1205,8 @@ class TdveTable:
                     break
                 if v.strip():
                     self.cols[v.strip().lower()] = c.column
-            elif _isnum(v):
-                self.years[v] = c.column
+            elif _year(v) is not None:
+                self.years[_year(v)] = c.column
         self.rows = [r for r in range(r0 + 1, r1 + 1) if not _blank(ws.cell(row=r, column=1).value) and not str(ws.cell(row=r, column=1).value).startswith("#ignore")]
 
     def label(self, r):
@@ -1251,7 +1262,7 @@ class DbView:
                     for c in ws[t[0]]:
                         if isinstance(c.value, str) and c.value.strip():
                             hdr[c.value.strip().lower()] = c.column
-                        elif _isnum(c.value):
+                        elif _year(c.value) is not None:
                             hdr.setdefault("years", []).append(c.column)
                     rows = [r for r in range(t[0] + 1, t[1] + 1) if not _blank(ws.cell(row=r, column=1).value) and ws.cell(row=r, column=1).value != "..."]
                     self.tdc[title].append({"ws": ws, "def": d, "matrix": m, "ts": t, "code": _s(ws.cell(row=d[0] + 1, column=1).value), "hdr": hdr, "rows": rows})
